@@ -237,6 +237,16 @@ pub fn main(args: &[String]) -> i32 {
         calls.push(CallInfo { kid: 1, key: key.clone(), gen: Some((r.timestamp, r.ttl_expiry, last)), deleted: false });
         obs::api("api_ret", &key, first_idx, 0, 0);
     }
+    // --idlefirst: the open store sits idle (no call, nothing queued) for a while before the first write: whatever
+    // the background threads do to save work while there is none, the write-behind bound holds for what comes next
+    let idle_first: u64 = o.num("idlefirst", 0u64);
+    if idle_first > 0 {
+        let t0 = std::time::Instant::now();
+        while (t0.elapsed().as_millis() as u64) < idle_first {
+            crate::util::watchdog::beat("idle before the first write");
+            std::thread::sleep(std::time::Duration::from_millis(100));
+        }
+    }
     let sessions: usize = o.num("sessions", 1);
     let futurepct: u32 = o.num("futurepct", 0);
     let bytes_pct: u32 = o.num("bytespct", 40u32).min(100);
